@@ -28,7 +28,8 @@ RULE = ("fault scenarios: API in {compute_dynamics, "
         "compute_dynamics_with_field, state_gradient, "
         "compute_gradient_and_dynamics, Tempo, MeanFieldTempo, PtTempo, "
         "GibbsTempo, PtTebd, compute_correlations} x progress in {silent, "
-        "simple, bar, default} x {no fault, user callable raising at call j "
+        "simple, bar, default} x {no fault, user callable raising (Exception / "
+        "KeyboardInterrupt / user-defined BaseException in turn) at call j "
         "(every j of a clean run, capped), missing cap at step k, wrong "
         "tensor shape at step k}; schedule scenarios: every (function, line, "
         "held side, action). Non-trivial iff the fault really fired / the "
@@ -53,6 +54,7 @@ APIS = {
     "compute_correlations": ["H"],
 }
 PROGRESS = ["silent", "simple", "bar", None]
+EXC_CLASSES = ["Exception", "KeyboardInterrupt", "BaseException"]
 NPARTS = 6
 
 
@@ -60,7 +62,8 @@ def required_cells(tier):
     req = {"api:" + a: 1 for a in APIS}
     req.update({"progress:bar": 5, "progress:default": 5,
                 "progress:simple": 3, "progress:silent": 3,
-                "faults_fired": 60, "schedule_points_reached": 30,
+                "faults_fired": 60, "non_exception_faults_fired": 30,
+                "schedule_points_reached": 30,
                 "held:timer": 10, "held:caller": 10, "exit_watchdog": 3,
                 "outcome:returned": 8})
     return req
@@ -172,10 +175,17 @@ def run_fault(case):
                     step = len(pts) / cap
                     pts = sorted({pts[int(j * step)] for j in range(cap)}
                                  | {1, c})
-            for at in pts:
-                scen.append({"kind": "fault", "id": f"{api}|{prog}|{k}@{at}",
+            for n_at, at in enumerate(pts):
+                # the failing callable raises an ordinary exception, a
+                # KeyboardInterrupt (Ctrl-C arriving inside the callable) or
+                # a user-defined BaseException - every way a call can raise
+                exc = EXC_CLASSES[(n_at + len(k)) % 3] \
+                    if k not in ("cap", "shape") else None
+                tag = "" if exc in (None, "Exception") else "!" + exc
+                scen.append({"kind": "fault",
+                             "id": f"{api}|{prog}|{k}@{at}{tag}",
                              "api": api, "progress": prog,
-                             "fault": {"kind": k, "at": at}})
+                             "fault": {"kind": k, "at": at, "exc": exc}})
         status, err, res = _worker(scen, tmpd, "faults", timeout=500)
         if status not in (0,):
             if not res:
@@ -192,6 +202,9 @@ def run_fault(case):
                         + r["harness_error"][-400:]}
             if r.get("fault_fired"):
                 fired += 1
+                if r.get("exc_class") in ("KeyboardInterrupt", "BoomBase"):
+                    monitors["non_exception_faults_fired"] = monitors.get(
+                        "non_exception_faults_fired", 0) + 1
         monitors["faults_fired"] = fired
         monitors["scenarios_run"] = len(res) + len(count_sc)
         monitors["timers_created"] = sum(r.get("timers_created", 0)
